@@ -165,6 +165,30 @@ def _scale(pl, pts=()):
     return Fr(m) * 64
 
 
+def _spell(r, conv, hand):
+    """every accepted spelling of the enum-valued options: short string, tuple of letters, tuple of enum members, mixed;
+    handedness as string or enum member (invalid values are passed through unchanged)"""
+    from highdicom.enum import AxisHandedness, PixelIndexDirections
+    c = conv
+    try:
+        k = r.randrange(4)
+        if k == 1:
+            c = tuple(conv)
+        elif k == 2:
+            c = tuple(PixelIndexDirections(x) for x in conv)
+        elif k == 3:
+            c = [PixelIndexDirections(conv[0]), conv[1]] if len(conv) == 2 else tuple(conv)
+    except ValueError:
+        c = conv
+    h = hand
+    try:
+        if r.random() < 0.5:
+            h = AxisHandedness(hand)
+    except ValueError:
+        h = hand
+    return c, h
+
+
 # ------------------------------------------------------------------ 1. affine construction
 def _affine_cases(ctx, reqs, pend):
     from highdicom import spatial as sp
@@ -191,10 +215,10 @@ def _affine_cases(ctx, reqs, pend):
                 pl['ori'] = pl['ori'][:5]
             elif bad == 'pslen':
                 ps = [1.0, 1.0, 1.0]
-        conv_arg = conv if r.random() < 0.5 else tuple(conv)
+        conv_arg, hand_arg = _spell(r, conv, hand)
         # --- create_rotation_matrix
         st, val = _call(sp.create_rotation_matrix, pl['ori'], index_convention=conv_arg, slices_first=sf,
-                        handedness=hand, pixel_spacing=ps, spacing_between_slices=sbs)
+                        handedness=hand_arg, pixel_spacing=ps, spacing_between_slices=sbs)
         case = {'fn': 'create_rotation_matrix', 'plane': pl, 'conv': conv, 'hand': hand, 'slices_first': sf, 'ps': ps,
                 'sbs': sbs, 'bad': bad}
         key = None
@@ -213,7 +237,7 @@ def _affine_cases(ctx, reqs, pend):
         pend.append((case, (st, val), tol))
         # --- create_affine_matrix_from_attributes (L/U are refused there; scalar spacing is a TypeError)
         st, val = _call(sp.create_affine_matrix_from_attributes, pl['pos'], pl['ori'], ps, sbs, index_convention=conv_arg,
-                        slices_first=sf, handedness=hand)
+                        slices_first=sf, handedness=hand_arg)
         case = dict(case, fn='create_affine_matrix_from_attributes')
         key = None
         if st == 'ok':
@@ -402,7 +426,8 @@ def _pair_cases(ctx, reqs, pend):
         a = _plane(r)
         row, col = np.array(a['ori'][:3]), np.array(a['ori'][3:])
         nrm = np.cross(row, col)
-        kind = r.choice(['same', 'shift', 'rot90', 'flip', 'rotpyth', 'off_normal', 'tilt', 'off_small'])
+        kind = r.choice(['same', 'shift', 'rot90', 'flip', 'rotpyth', 'off_normal', 'tilt', 'off_small', 'mirror', 'mirror_flip',
+                         'equal_abs_distance'])
         # in-plane transformations of plane A give coplanar planes B
         du, dv = _dy(r, -40, 40), _dy(r, -40, 40)
         posb = np.array(a['pos']) + du * row + dv * col
@@ -421,9 +446,20 @@ def _pair_cases(ctx, reqs, pend):
         elif kind == 'tilt':
             p, q, h = r.choice(PYTH)
             rowb, colb = (p * row + q * nrm) / h, col
+        elif kind in ('mirror', 'mirror_flip', 'equal_abs_distance'):
+            # a parallel plane at the OPPOSITE signed distance from the origin of the frame of reference (mirror image),
+            # with the same or the reversed normal; 'equal_abs_distance' first moves plane A to a chosen distance
+            da = float(np.dot(np.array(a['pos']), nrm))
+            if kind == 'equal_abs_distance' or abs(da) < 0.5:
+                target = r.choice([-30.0, -12.5, 7.0, 12.5, 30.0])
+                a['pos'] = [float(x) for x in np.array(a['pos']) + (target - da) * nrm]
+                da = target
+            posb = np.array(a['pos']) + du * row + dv * col - 2 * da * nrm
+            if kind == 'mirror_flip':
+                rowb, colb = col, row
         b = {'pos': [float(x) for x in posb], 'ori': [float(x) for x in rowb] + [float(x) for x in colb],
-             'ps': [_spacing(r), _spacing(r)], 'cls': 'axis' if (a['cls'] == 'axis' and kind in ('same', 'shift', 'rot90', 'flip', 'off_normal')) else 'oblique'}
-        coplanar = kind not in ('off_normal', 'tilt')
+             'ps': [_spacing(r), _spacing(r)], 'cls': 'axis' if (a['cls'] == 'axis' and kind in ('same', 'shift', 'rot90', 'flip', 'off_normal', 'mirror', 'mirror_flip', 'equal_abs_distance')) else 'oblique'}
+        coplanar = kind not in ('off_normal', 'tilt', 'mirror', 'mirror_flip', 'equal_abs_distance')
         kw = dict(image_position_from=a['pos'], image_orientation_from=a['ori'], pixel_spacing_from=a['ps'],
                   image_position_to=b['pos'], image_orientation_to=b['ori'], pixel_spacing_to=b['ps'])
         margs = {'pos_f': RL(a['pos']), 'ori_f': RL(a['ori']), 'ps_f': RL(a['ps']),
